@@ -3,12 +3,12 @@
 cd "$(dirname "$0")/.."
 P=$1; N=$2; R=${3:-4}; TIER=${4:-quick}; CP=${5:-$1}   # CP: the check to run (a change filed under one property may break another)
 S=/tmp/seed$R-$P/$N; W=/tmp/wt$R-$P
-git -C $W checkout -q -- . ; git -C $W checkout -q --detach $(git -C /repo rev-parse HEAD); git -C $W apply $S/patch.diff 2>/dev/null || git -C $W apply -3 $S/patch.diff || exit 2
+git -C $W checkout -q -- . ; git -C $W clean -fdq; git -C $W checkout -q --detach $(git -C /repo rev-parse HEAD); git -C $W apply $S/patch.diff 2>/dev/null || git -C $W apply -3 $S/patch.diff || exit 2
 d=$(mktemp -d /var/tmp/seedtry.XXXX)
 t0=$(date +%s)
 PYMODES_SRC=$W/src VERIF_EVIDENCE_DIR=$d ./check $CP --tier $TIER > $d/log 2>&1; rc=$?
 t1=$(date +%s)
 echo "$P-r$R-$N: exit=$rc $((t1-t0))s $(grep 'failing leg' $d/log | head -2 | cut -c1-300)"
 [ $rc -eq 2 ] && tail -5 $d/log
-git -C $W checkout -q -- .
+git -C $W checkout -q -- .; git -C $W clean -fdq
 rm -rf $d
